@@ -313,8 +313,8 @@ func c41Run(env *c41Env, c *c41Case, file string, mode string) (resp c41Resp, re
 
 	xdir := filepath.Join(env.dir, "x")
 
-	// (the transport settings are written once per phase in c41Phase, before the workers start:
-	// the settings map is not synchronised, so it must not be written while requests are in flight)
+	// the transport mode was configured by c41SetMode before any worker started (the settings map is not
+	// synchronised: nothing writes it while requests are in flight)
 	if mode == "inproc" {
 		// every request is the first request: a cached compilation unit (and its package-level state)
 		// is a property of the server's cache (C42), not of the transport
@@ -415,6 +415,75 @@ func c41RandBytes(rnd *rand.Rand) []byte {
 	return []byte(fmt.Sprintf("{\"n\":%d,\"s\":%q}", rnd.Intn(1000), c41Pick(rnd, c41Texts)))
 }
 
+// c41AcceptVals: values of one Accept line.  Both handlers decide the default reply Content-Type by looking for
+// "application/json" in every value of every Accept line; router.ServeHTTP (c41Accepts) looks for "json"/"text"/"*/*".
+var c41AcceptJSON = []string{"application/json", "application/json;q=0.9", "application/json; charset=utf-8",
+	"text/html, application/json;q=0.2", "application/xml;q=0.4,application/json"}
+
+var c41AcceptOther = []string{"text/plain", "text/plain;q=0.5", "text/html;q=0.8", "application/xml;q=0.4", "*/*", "*/*;q=0.1",
+	"image/png, image/*;q=0.5", "application/vnd.ego.error+json", "Application/JSON", "application/jso", "", "text/*"}
+
+// c41GenAccept gives the Accept header of a request as separate lines, in the shapes: absent, one line, several
+// lines with application/json on the first / on a later / on no line, with and without q-values.
+func c41GenAccept(rnd *rand.Rand) [][2]string {
+	n := rnd.Intn(4) // number of lines
+	at := -1         // the line that carries application/json
+
+	if n > 0 && rnd.Intn(4) != 0 {
+		at = rnd.Intn(n)
+		if n > 1 && rnd.Intn(2) == 0 {
+			at = 1 + rnd.Intn(n-1) // later than the first line
+		}
+	}
+
+	var hs [][2]string
+
+	for i := 0; i < n; i++ {
+		name := c41Pick(rnd, []string{"Accept", "Accept", "Accept", "accept", "ACCEPT"})
+
+		switch {
+		case i == at:
+			hs = append(hs, [2]string{name, c41Pick(rnd, c41AcceptJSON)})
+		case at >= 0 && rnd.Intn(6) == 0:
+			hs = append(hs, [2]string{name, c41Pick(rnd, c41AcceptJSON)}) // json on more than one line
+		default:
+			hs = append(hs, [2]string{name, c41Pick(rnd, c41AcceptOther)})
+		}
+	}
+
+	return hs
+}
+
+// c41HeaderShape measures what a request's headers exercise: the number of names with several values, the number
+// of Accept lines and the index of the first Accept line containing "application/json" (-1 = none).
+func c41HeaderShape(q *c41Req) (multi, acceptLines, jsonAt int) {
+	hdr := http.Header{}
+	for _, kv := range q.Headers {
+		k := http.CanonicalHeaderKey(kv[0])
+		hdr[k] = append(hdr[k], kv[1])
+	}
+
+	jsonAt = -1
+
+	for k, v := range hdr {
+		if len(v) > 1 {
+			multi++
+		}
+
+		if k == "Accept" {
+			acceptLines = len(v)
+
+			for i, x := range v {
+				if jsonAt < 0 && strings.Contains(x, defs.JSONMediaType) {
+					jsonAt = i
+				}
+			}
+		}
+	}
+
+	return multi, acceptLines, jsonAt
+}
+
 func c41GenReq(rnd *rand.Rand) c41Req {
 	q := c41Req{Method: c41Pick(rnd, []string{"GET", "POST", "PUT", "DELETE", "PATCH"}), Parts: map[string]any{}}
 	seg := c41Pick(rnd, []string{"alpha", "beta", "x1"})
@@ -466,6 +535,28 @@ func c41GenReq(rnd *rand.Rand) c41Req {
 	for n := rnd.Intn(5); n > 0; n-- {
 		q.Headers = append(q.Headers, [2]string{c41Pick(rnd, c41HdrNames), c41Pick(rnd, c41HdrVals)})
 	}
+
+	// the Accept header the handlers themselves interpret, sent as 0-3 SEPARATE header lines
+	if rnd.Intn(4) != 0 {
+		q.Headers = append(q.Headers, c41GenAccept(rnd)...)
+	}
+
+	// any header may arrive as several lines (one name, several values, order kept): repeat some of the names
+	// already present — also under another spelling of the same canonical name — with a further value
+	for n, k := rnd.Intn(3), len(q.Headers); n > 0 && k > 0; n-- {
+		name := q.Headers[rnd.Intn(k)][0]
+
+		switch rnd.Intn(3) {
+		case 0:
+			name = strings.ToLower(name)
+		case 1:
+			name = strings.ToUpper(name)
+		}
+
+		q.Headers = append(q.Headers, [2]string{name, c41Pick(rnd, c41HdrVals)})
+	}
+
+	rnd.Shuffle(len(q.Headers), func(i, j int) { q.Headers[i], q.Headers[j] = q.Headers[j], q.Headers[i] })
 
 	if q.Method != "GET" || rnd.Intn(4) == 0 {
 		q.Body = hex.EncodeToString(c41RandBytes(rnd))
@@ -608,6 +699,66 @@ func c41Corpus() []c41Case {
 	cs = append(cs, mk(c41Svc{Kind: "gen", Body: "print", Data: hex.EncodeToString([]byte("printed")), Status: 200}, nil))
 
 	return cs
+}
+
+// c41HeaderCorpus: requests whose headers arrive as SEVERAL lines of one name, for every header the handlers
+// interpret themselves (Accept: the default reply Content-Type) and for headers they only forward to the service
+// (all values, in order; sensitive names dropped).  The services either leave Content-Type alone — so the JSON-reply
+// decision of each side is visible in the response headers — or set it, and echo what they were given.
+// The first c41HeaderPinned cases run in every quick run.
+const c41HeaderPinned = 4
+
+func c41HeaderCorpus() []c41Case {
+	parts := func() map[string]any { return map[string]any{"services": true, "alpha": true} }
+	mk := func(s c41Svc, method string, body string, hs ...[2]string) c41Case {
+		q := c41Req{Method: method, Pattern: "/services/alpha", URL: "/services/alpha", Parts: parts(), Headers: hs}
+		if body != "" {
+			q.Body = hex.EncodeToString([]byte(body))
+		}
+
+		return c41Case{Svc: s, Req: q}
+	}
+	text := func(status int, ops ...c41Hdr) c41Svc {
+		return c41Svc{Kind: "gen", Body: "text", Data: hex.EncodeToString([]byte("{\"answer\": 42}")), Status: status, Hdrs: ops}
+	}
+	echo := func(keys ...string) c41Svc { return c41Svc{Kind: "gen", Body: "echo", Echo: keys, Status: 200} }
+	a := func(v string) [2]string { return [2]string{"Accept", v} }
+
+	return []c41Case{
+		// --- pinned
+		// json on a later line; other forwarded headers multi-valued too (and a sensitive one, dropped)
+		mk(echo("headers", "isjson", "istext"), "GET", "", a("text/plain"), a("application/json"),
+			[2]string{"X-List", "one"}, [2]string{"x-list", "two"}, [2]string{"X-List", "one"},
+			[2]string{"Cookie", "a=1"}, [2]string{"Cookie", "b=2"}),
+		// q-values, json on the third line, a service that writes text and no Content-Type
+		mk(text(200), "GET", "", a("text/plain;q=0.5"), a("application/xml;q=0.4"), a("application/json;q=0.9")),
+		// json on the first line only
+		mk(text(201, c41Hdr{"add", "X-One", "1"}), "POST", "{}", a("application/json"), a("text/plain"),
+			[2]string{"Content-Type", "application/json"}, [2]string{"Content-Type", "text/plain"}),
+		// several lines, json on none of them ("json" in a vendor type and in another letter case is not application/json)
+		mk(text(200), "GET", "", a("text/plain"), a("application/vnd.ego.error+json"), a("Application/JSON;q=0.8")),
+		// --- the rest (all of them in a thorough run, two per quick run)
+		// comma-separated lists on several lines, json at the end of the last line
+		mk(text(200), "GET", "", a("text/plain, text/html"), a("application/xml, application/json;q=0.1")),
+		// the service sets Content-Type itself: its value wins over the default on both sides
+		mk(text(200, c41Hdr{"add", "Content-Type", "text/plain; charset=utf-8"}), "GET", "", a("text/html"), a("application/json")),
+		// the service deletes Content-Type after the fact
+		mk(text(200, c41Hdr{"del", "Content-Type", ""}), "GET", "", a("*/*;q=0.1"), a("application/json")),
+		// differently spelled names of one header are one header; an empty line first
+		mk(echo("headers", "isjson"), "PUT", "x", [2]string{"accept", ""}, [2]string{"ACCEPT", "application/json"},
+			[2]string{"Accept-Language", "en"}, [2]string{"accept-language", "fr;q=0.5"}),
+		// no body and an error status with a body, json later
+		mk(c41Svc{Kind: "gen", Body: "none", Status: 204}, "DELETE", "", a("text/plain"), a("application/json")),
+		mk(text(404), "GET", "", a("text/plain"), a("text/html"), a("application/json")),
+		// json on two lines; forwarded multi-valued headers with a non-UTF-8 value and repeated Cache-Control / Via / Range
+		mk(echo("headers"), "GET", "", a("application/json"), a("application/json;q=0.5"),
+			[2]string{"Cache-Control", "no-cache"}, [2]string{"Cache-Control", "no-store"}, [2]string{"Via", "1.1 a"}, [2]string{"Via", "1.1 b"},
+			[2]string{"Range", "bytes=0-1"}, [2]string{"Range", "bytes=5-"}, [2]string{"Authorization", "Basic Zm9v"}, [2]string{"Authorization", "Bearer t"}),
+		mk(echo("headers"), "GET", "", a("text/plain"), a("\xe9"), a("application/json"), [2]string{"X-Bin", "ok"}, [2]string{"X-Bin", "\xe9"}),
+		// a single line and no line at all, for contrast
+		mk(text(200), "GET", "", a("text/plain, application/json")),
+		mk(text(200), "GET", ""),
+	}
 }
 
 func c41Setup(t *testing.T) *c41Env {
@@ -991,6 +1142,15 @@ func c41LibCases() []c41Case {
 			map[string]any{"services": true, "unit-test": true, "media": true}, js),
 		mk("unit-test/media.ego", "GET", "/services/unit-test/media", "/services/unit-test/media",
 			map[string]any{"services": true, "unit-test": true, "media": true}, func(q *c41Req) { q.Headers = [][2]string{{"Accept", "text/plain"}} }),
+		mk("unit-test/media.ego", "GET", "/services/unit-test/media", "/services/unit-test/media",
+			map[string]any{"services": true, "unit-test": true, "media": true},
+			func(q *c41Req) {
+				q.Headers = [][2]string{{"Accept", "text/html;q=0.8"}, {"Accept", "application/json"}}
+			}),
+		mk("hello.ego", "GET", "/services/hello", "/services/hello", map[string]any{"services": true, "hello": true},
+			func(q *c41Req) {
+				q.Headers = [][2]string{{"Accept", "text/plain"}, {"Accept", "application/json;q=0.5"}}
+			}),
 		mk("unit-test/status.ego", "GET", "/services/unit-test/status/{{code}}", "/services/unit-test/status/404",
 			map[string]any{"services": true, "unit-test": true, "status": true, "code": "404"}, nil),
 		mk("unit-test/status.ego", "GET", "/services/unit-test/status/{{code}}", "/services/unit-test/status/abc",
@@ -1022,10 +1182,9 @@ type c41Result struct {
 	err            [3]error
 }
 
-func c41Phase(env *c41Env, cases []c41Case, files []string, res []c41Result, mode string, workers int) {
-	ch := make(chan int)
-	done := make(chan bool)
-
+// c41SetMode configures the transport of a whole phase.  It runs on the test goroutine while no request is in
+// flight: ServiceHandler → callChildServices → waitForTurn reads the (unsynchronised) settings concurrently.
+func c41SetMode(env *c41Env, mode string) {
 	switch mode {
 	case "inproc":
 		settings.Set(defs.ChildServicesSetting, "false")
@@ -1037,6 +1196,13 @@ func c41Phase(env *c41Env, cases []c41Case, files []string, res []c41Result, mod
 		settings.Set(defs.ChildRequestDirSetting, filepath.Join(env.dir, "x"))
 		settings.Set(defs.ChildRequestRetainSetting, "true")
 	}
+}
+
+func c41Phase(env *c41Env, cases []c41Case, files []string, res []c41Result, mode string, workers int) {
+	c41SetMode(env, mode)
+
+	ch := make(chan int)
+	done := make(chan bool)
 
 	for w := 0; w < workers; w++ {
 		go func() {
@@ -1095,6 +1261,16 @@ func TestVerifC41(t *testing.T) {
 		}
 	}
 
+	hc := c41HeaderCorpus()
+	if verifh.Thorough() || os.Getenv("VERIF_CASES") != "" {
+		cases = append(cases, hc...)
+	} else {
+		cases = append(cases, hc[:c41HeaderPinned]...)
+		for _, i := range rnd.Perm(len(hc) - c41HeaderPinned)[:2] {
+			cases = append(cases, hc[c41HeaderPinned+i])
+		}
+	}
+
 	lib := c41MarkLib(c41LibCases())
 	if verifh.Thorough() || os.Getenv("VERIF_CASES") != "" {
 		cases = append(cases, lib...)
@@ -1103,7 +1279,6 @@ func TestVerifC41(t *testing.T) {
 			cases = append(cases, lib[i])
 		}
 	}
-
 
 	for n := verifh.N(10, 200); n > 0; n-- {
 		cases = append(cases, c41Case{Svc: c41GenSvc(rnd), Req: c41GenReq(rnd)})
@@ -1142,6 +1317,24 @@ func TestVerifC41(t *testing.T) {
 
 		if i < 40 && i%6 == 1 {
 			st.Sample(c)
+		}
+
+		// what the request's headers exercise (measured, reported in the coverage)
+		if multi, lines, jsonAt := c41HeaderShape(&q); multi > 0 || lines > 0 {
+			if multi > 0 {
+				st.Inc("req_multi_valued_header")
+			}
+
+			switch {
+			case lines > 1 && jsonAt > 0:
+				st.Inc("accept_lines_json_later")
+			case lines > 1 && jsonAt == 0:
+				st.Inc("accept_lines_json_first")
+			case lines > 1:
+				st.Inc("accept_lines_json_absent")
+			case lines == 1:
+				st.Inc("accept_single_line")
+			}
 		}
 
 		fail := func(class, what string, got, want any) {
@@ -1219,21 +1412,34 @@ func TestVerifC41(t *testing.T) {
 			echoAltered = echoAltered || (c.Svc.Body == "echo" && strings.HasPrefix(k, "body."))
 		}
 
-		if c.Svc.Kind == "gen" && c.Svc.Err == "" && r.in.Status >= 100 && !echoAltered {
+		// a 401 from a service that sets Www-Authenticate itself: the child's reply then carries two keys of one
+		// canonical name ("Www-Authenticate" from the service, "WWW-Authenticate" added by runChildRequest) and the value
+		// the parent keeps depends on Go's map iteration order in callChildServices — not a function of the input, so
+		// there is no line to compare (the oracle's class status-401-realm-header covers the header)
+		realmClash := false
+
+		if c.Svc.Status == http.StatusUnauthorized {
+			for k := range c41SvcHeaders(c.Svc) {
+				realmClash = realmClash || http.CanonicalHeaderKey(k) == "Www-Authenticate"
+			}
+		}
+
+		if realmClash {
+			st.Inc("resp_skipped_401_realm_clash")
+		}
+
+		if c.Svc.Kind == "gen" && c.Svc.Err == "" && r.in.Status >= 100 && !echoAltered && !realmClash {
 			hdr := http.Header{}
 			for _, kv := range q.Headers {
 				hdr[http.CanonicalHeaderKey(kv[0])] = append(hdr[http.CanonicalHeaderKey(kv[0])], kv[1])
 			}
 
-			isJSON := false
-			for _, v := range hdr["Accept"] {
-				isJSON = isJSON || strings.Contains(v, defs.JSONMediaType)
-			}
-
+			// the model is given the request headers as the handler received them (all values of each name) and
+			// takes the JSON-reply decision of each side itself
 			ib, _ := hex.DecodeString(r.in.Body)
 			st.Inc("resp_lines")
 			co.Write(verifh.Case{
-				In:   strings.Join([]string{"resp", c41B(isJSON), fmt.Sprint(c.Svc.Status), c41M(c41SvcHeaders(c.Svc)), verifh.Hex(string(ib)),
+				In: strings.Join([]string{"resp", c41M(hdr), fmt.Sprint(c.Svc.Status), c41M(c41SvcHeaders(c.Svc)), verifh.Hex(string(ib)),
 					verifh.Hex(`Basic realm=` + strconv.Quote(router.Realm) + `, charset="UTF-8"`)}, " "),
 				Impl: c41RespCanon(r.in) + " | " + c41RespCanon(r.file),
 				Desc: fmt.Sprintf("case %d response", i)})
